@@ -236,6 +236,16 @@ func runC09(t *testing.T, e *worlds.Env, tier string) (bool, any) {
 				assocs = append(assocs, a)
 			}
 		}
+		// an association's Read reports end-of-stream only when the association has been idle for
+		// the idle timeout (the timer restarts with every Read call): an earlier EOF means somebody
+		// else closed it - e.g. the close notification of the client's previous association
+		for _, a := range assocs {
+			if a.EOFAfter > 0 && a.EOFAfter < 30*time.Second-5*time.Millisecond {
+				e.S.Fail("C09/ended-without-cause", "udprec", "an association of client %s (%s) read end-of-stream at %v after waiting only %v (it had read %d datagrams; idle timeout 30s): it was closed from outside while alive",
+					a.Client, a.G, a.EOFAt, a.EOFAfter, len(a.Reads))
+				return
+			}
+		}
 		sample.Arrived += len(arr)
 		sample.Assocs += len(assocs)
 		sample.Replies += len(sent)
